@@ -104,13 +104,22 @@ def check(run):
             if name.startswith('~') and dc and q.on_all_paths(f, dc):
                 run.ok('R4', 'unbind-before-clear', f.norm, f.loc(), 'destructor delegates to close(ec) on every path')
                 continue
-            ub = [c for c in f.calls() if (q.callee_name(c) or '').endswith('io_context::' + unbind)]
-            clr = [a.site for a in q.field_accesses(f, {B + '::m_bound_to'}) if a.kind == 'assign' and q.is_this(q.access_root(a.node))]
-            okb = bool(ub) and bool(clr) and all(q.any_precedes(f, ub, c) for c in clr)
-            okg = all(any(q.cmp_atom(a) and q.cmp_atom(a)[0] == '!=' and p and 'm_bound_to' in q.render(f, a) for a, p in q.guards_at(f, c)) for c in ub)
-            args_ok = all(len(c.get('args', [])) == 2 and q.is_this(c['args'][0]) and q.render(f, c['args'][1]) == 'm_bound_to' for c in ub)
-            early = [r for r in q.returns(f) if ub and not q.any_precedes(f, ub, r) and not any('m_bound_to' in q.render(f, a) for a, p in q.guards_at(f, r))]
-            run.check(okb and okg and args_ok and not early, 'R4', 'unbind-before-clear', '%s%s' % (f.norm, '' if name.startswith('~') else '(ec)'), f.loc(),
+            # the unbind/clear pair sits in f or in a helper f calls on this socket on every path
+            fl = q.flat_calls(f, lambda g_, c: (q.callee_name(c) or '').endswith('io_context::' + unbind))
+            owners = {id(x.owner): x.owner for x in fl}.values()
+            okall = bool(fl)
+            for own in owners:
+                ub = [x.call for x in fl if x.owner is own]
+                clr = [a.site for a in q.field_accesses(own, {B + '::m_bound_to'}) if a.kind == 'assign' and q.is_this(q.access_root(a.node))]
+                okb = bool(ub) and bool(clr) and all(q.any_precedes(own, ub, c) for c in clr)
+                okg = all(any(q.cmp_atom(a) and q.cmp_atom(a)[0] == '!=' and p and 'm_bound_to' in q.render(own, a) for a, p in q.guards_at(own, c)) for c in ub)
+                args_ok = all(len(c.get('args', [])) == 2 and q.is_this(c['args'][0]) and q.render(own, c['args'][1]) == 'm_bound_to' for c in ub)
+                early = [r for r in q.returns(own) if ub and not q.any_precedes(own, ub, r) and not any('m_bound_to' in q.render(own, a) for a, p in q.guards_at(own, r))]
+                okall = okall and okb and okg and args_ok and not early
+                if own is not f:
+                    anchors = [x.anchor for x in fl if x.owner is own]
+                    okall = okall and q.on_all_paths(f, anchors)
+            run.check(okall, 'R4', 'unbind-before-clear', '%s%s' % (f.norm, '' if name.startswith('~') else '(ec)'), f.loc(),
                       'the binding is not released (%s(this, m_bound_to) under m_bound_to != default, before m_bound_to is cleared, on every path)' % unbind, 'unbind(this, m_bound_to) precedes the clearing of m_bound_to')
         op = fx.fn(cls + '::open', '(sim::asio::ip::%s, boost::system::error_code &)' % spec)[0]
         cl = fx.fn1(cls + '::close', '(boost::system::error_code &)')
@@ -150,8 +159,8 @@ def check(run):
             run.check(bool(clr) and q.must_follow(fn, c, clr), 'R4', 'unbind-paired-with-clear', '%s: %s' % (fn.norm, q.callee_name(c).split('::')[-1]), fn.loc(c),
                       '%s releases the registry entry but keeps m_bound_to on some path: the socket stays open and still claims an endpoint the registry now hands to someone else' % fn.norm,
                       'm_bound_to is cleared on every path after the entry is released')
-    if npair < 3:
-        run.broke('fewer than 3 unbind call sites found in the socket classes')
+    if npair < 2:
+        run.broke('fewer than 2 unbind call sites found in the socket classes')
     ac = fx.fn1(A + '::close', '(boost::system::error_code &)')
     tc = fx.fn1(T + '::close', '(boost::system::error_code &)')
     run.touch(ac)
